@@ -363,6 +363,40 @@ Fixpoint pdraw_free (sk : pskel) : bool :=
   | PDraw _ _ | PDrawNp _ => false
   end.
 
+(* the one-variable language [skel] embedded into the Python-shaped one: variable 0 = random_state, variable 1 = rng
+   (Proofs/DrawsProofsPy2.v: the two semantics agree on the embedding, so both languages describe the same calls) *)
+Definition embed_arg (a : argexp) : pexp :=
+  match a with ARaw => PVar 0 | ARng => PVar 1 | ANone => PNoneE | AConst s => PConstE s end.
+Fixpoint embed (sk : skel) : pskel :=
+  match sk with
+  | Skip => PSkip
+  | Seq a b => PSeq (embed a) (embed b)
+  | Branch t a b => PBranch t (embed a) (embed b)
+  | For t n body => PFor t n (embed body)
+  | Check => PCheck 1 (PVar 0)
+  | Draw t => PDraw 1 t
+  | DrawNp t => PDrawNp t
+  | Call a body => PCall (embed_arg a) (embed body)
+  end.
+
+(* source level: the scope certainly passes its own random_state argument (variable 0, not re-bound before) to
+   check_random_state, on every path, possibly through callees that receive it unchanged *)
+Fixpoint passigns0 (sk : pskel) : bool :=
+  match sk with
+  | PAssign 0 _ | PCheck 0 _ => true
+  | PSeq a b | PBranch _ a b => passigns0 a || passigns0 b
+  | PFor _ _ body => passigns0 body
+  | _ => false
+  end.
+Fixpoint pmust_check (sk : pskel) : bool :=
+  match sk with
+  | PSeq a b => pmust_check a || (negb (passigns0 a) && pmust_check b)
+  | PBranch _ a b => pmust_check a && pmust_check b
+  | PCheck _ (PVar 0) => true
+  | PCall (PVar 0) body => pmust_check body
+  | _ => false
+  end.
+
 Section PSem.
 Variables gstate value req : Type.
 Variable draw : req -> gstate -> value * gstate.
@@ -519,10 +553,13 @@ Definition sk_initialize_cp_gen (cp_svd_init_threads_seed : bool) (o : opts) : s
 Definition sk_initialize_cp := sk_initialize_cp_gen true.
 Definition sk_parafac (o : opts) : skel := Seq (Call ARaw (sk_initialize_cp o)) (rep (o_iters o) Skip).
 Definition sk_parafac_old (o : opts) : skel := Seq (Call ARaw (sk_initialize_cp_gen false o)) (rep (o_iters o) Skip).
-Definition sk_sample_khatri_rao (n : nat) : skel := Seq Check (rep n (Draw 3)).
+(* sample_khatri_rao: the generator is looked at only when indices_list is not supplied ([given] = false); a supplied
+   indices_list means no check_random_state and no draw at all (so an out-of-range seed is NOT rejected then).  For a
+   RandomState argument the code aliases it instead of calling check_random_state: the same thing in this language *)
+Definition sk_sample_khatri_rao (given : bool) (n : nat) : skel := if given then Skip else Seq Check (rep n (Draw 3)).
 Definition sk_randomised_parafac (o : opts) : skel :=
   Seq Check (Seq (Call ARaw (sk_initialize_cp o))
-                 (For 1 (o_iters o) (rep (order o) (Call ARng (sk_sample_khatri_rao (order o - 1)))))).
+                 (For 1 (o_iters o) (rep (order o) (Call ARng (sk_sample_khatri_rao false (order o - 1)))))).
 
 (* tensorly/decomposition/_constrained_cp.py (random branch repaired by commit ec93052) *)
 Definition sk_initialize_constrained_gen (cp_svd_init_threads_seed : bool) (o : opts) : skel :=
@@ -554,13 +591,17 @@ Definition sk_nn_tucker (o : opts) : skel := Seq (Call ARaw (sk_initialize_tucke
 
 (* tensorly/decomposition/_parafac2.py (after 20fd4fd: rng = check_random_state(random_state) once, threaded everywhere) *)
 Definition sk_compute_projections (o : opts) : skel := rep (o_aux o) (Call ARaw (sk_svd_interface (o_svd o) false 0)).
+(* initialize_decomposition: random -> random_parafac2(random_state=random_state); svd -> svd_interface + _compute_projections, both with
+   the raw argument; a user-supplied decomposition -> nothing *)
+Definition sk_parafac2_init (o : opts) : skel :=
+  match o_init o with
+  | IRandom => Call ARaw (sk_random_parafac2 (o_aux o))
+  | ISvd => Seq (Call ARaw (sk_svd_interface (o_svd o) false 0)) (Call ARaw (sk_compute_projections o))
+  | IUser => Skip
+  end.
 Definition sk_parafac2 (o : opts) : skel :=
   Seq Check
- (Seq (Call ARng (match o_init o with
-                  | IRandom => Call ARaw (sk_random_parafac2 (o_aux o))
-                  | ISvd => Seq (Call ARaw (sk_svd_interface (o_svd o) false 0)) (Call ARaw (sk_compute_projections o))
-                  | IUser => Skip
-                  end))
+ (Seq (Call ARng (sk_parafac2_init o))
  (Seq (match o_init o with                      (* nn_modes with the SVD initialisation: projections recomputed, random_state=rng *)
        | ISvd => Branch 3 (Call ARng (sk_compute_projections o)) Skip
        | _ => Skip
@@ -606,11 +647,11 @@ Definition sk_power_iteration (o : opts) : skel := rep (o_aux o) (Seq (rep (orde
 
 Inductive ep :=
 | E_random_tensor | E_random_cp | E_random_tucker | E_random_tt | E_random_tr | E_random_tt_matrix | E_random_parafac2
-| E_range_finder | E_randomized_svd | E_svd_interface
-| E_initialize_cp | E_parafac | E_nn_parafac | E_nn_parafac_hals | E_constrained_parafac | E_randomised_parafac
+| E_check_random_state | E_range_finder | E_randomized_svd | E_svd_interface
+| E_initialize_cp | E_parafac | E_nn_parafac | E_nn_parafac_hals | E_constrained_parafac | E_initialize_constrained | E_randomised_parafac
 | E_sample_khatri_rao
 | E_initialize_tucker | E_partial_tucker | E_tucker | E_nn_tucker | E_nn_tucker_hals
-| E_parafac2 | E_tr_als | E_tr_als_sampled | E_tt_cross
+| E_parafac2 | E_parafac2_init | E_compute_projections | E_tr_als | E_tr_als_sampled | E_tt_cross
 | E_cp_regressor | E_tucker_regressor | E_cp_plsr
 | E_estimator (e : ep)            (* class wrapper: fit_transform / fit passes self.random_state *)
 | E_rng_free                      (* no random_state argument and no draw: tensor algebra, SVD-based TT/TR, ... *)
@@ -625,19 +666,23 @@ Fixpoint skeleton (e : ep) (o : opts) : skel :=
   | E_random_tr => sk_random_tr (order o)
   | E_random_tt_matrix => sk_random_tt_matrix (order o)
   | E_random_parafac2 => sk_random_parafac2 (o_aux o)
+  | E_check_random_state => Check
   | E_range_finder => sk_range_finder
   | E_randomized_svd => sk_randomized_svd
   | E_svd_interface => sk_svd_interface (o_svd o) (o_mask o) (o_nrep o)
   | E_initialize_cp => sk_initialize_cp o
   | E_parafac | E_nn_parafac | E_nn_parafac_hals => sk_parafac o
   | E_constrained_parafac => sk_constrained_parafac o
+  | E_initialize_constrained => sk_initialize_constrained o
   | E_randomised_parafac => sk_randomised_parafac o
-  | E_sample_khatri_rao => sk_sample_khatri_rao (order o)
+  | E_sample_khatri_rao => sk_sample_khatri_rao (o_mask o) (order o)     (* o_mask stands for "indices_list supplied" *)
   | E_initialize_tucker => sk_initialize_tucker o
   | E_partial_tucker => sk_partial_tucker o
   | E_tucker => sk_tucker o
   | E_nn_tucker | E_nn_tucker_hals => sk_nn_tucker o
   | E_parafac2 => sk_parafac2 o
+  | E_parafac2_init => sk_parafac2_init o
+  | E_compute_projections => sk_compute_projections o
   | E_tr_als => sk_tr_als o
   | E_tr_als_sampled => sk_tr_als_sampled o
   | E_tt_cross => sk_tt_cross o
